@@ -27,7 +27,7 @@ CHECKS.update({
             "Full products of small parameter alphabets (values, locations, scales, Weibull shape/scale, shifts, censoring, layouts, dtypes the models reach) evaluated through the real distribution families and through real model states, compared entry by entry with scipy.stats in float64.",
             "Grid alphabets only; tolerance 2e-5 of the summed term magnitudes; float32 event times are unreachable from the models and excluded."),
     "C09": ("exploration", "exhaustive grid enumeration of parameters, individual parameters, age lists and request layouts through estimate / compute_individual_trajectory against an independent float64 closed form",
-            "Every combination of model kind, dimension, sources, parameter vector, individual parameters, age list and request form in the grid is run through the real estimate(); values are compared with an independent numpy implementation of the documented formula, plus range, monotonicity, reference-time value, order and layout of the result. Ages include values with more than six decimals.",
+            "Every combination of model kind, dimension, sources, parameter vector, individual parameters, age list and request form in the grid is run through the real estimate(); values are compared with an independent numpy implementation of the documented formula, plus range, monotonicity, reference-time value, order and layout of the result. Ages include values with more than six decimals. Request forms include ages held as a reversed numpy view (negative stride) and as a plain number; extreme log-accelerations (|xi| up to 6.5) are evaluated at ages tau + c exp(-xi) where such an individual is mid-curve.",
             "Grid alphabets only; per-value tolerance derived from float32 rounding of the logit; joint event columns only checked for count and range."),
 })
 CHECKS.update({
@@ -45,7 +45,7 @@ CHECKS.update({
 })
 CHECKS.update({
     "C16": ("exploration", "exhaustive enumeration of small containers (identifiers x namings x shapes x value types x values) and breadth-first walk of every conversion chain between the five forms to a fixpoint, against a plain-Python reference",
-            "Every container of the bounded space is converted along every chain of dict / table / tensors / CSV / JSON conversions (breadth-first with deduplication until no new container content appears) and every intermediate form and final container is compared with the reference (identifiers as strings in order, names, shapes, values exactly or to single precision once a tensor is on the path); every malformed addition must be refused and leave the container unchanged. One working dictionary re-bound and handed over for several individuals must leave the earlier entries as they were added.",
+            "Every container of the bounded space is converted along every chain of dict / table / tensors / CSV / JSON conversions (breadth-first with deduplication until no new container content appears) and every intermediate form and final container is compared with the reference (identifiers as strings in order, names, shapes, values exactly or to single precision once a tensor is on the path); every malformed addition must be refused and leave the container unchanged. One working dictionary re-bound and handed over for several individuals must leave the earlier entries as they were added. The container is converted (tensors, table) after each addition: every conversion shows the container as it is then.",
             "Alphabets of identifiers / names / shapes / values are small; empty containers, tuples and names ending in _<digits> are left out."),
 })
 CHECKS.update({
